@@ -40,11 +40,12 @@ import (
 // The walker (complexity/complexity.go) hands `ObjectDefinition.Name` / `Field.Name` to Complexity() exactly as the
 // schema spells them, so the label must be spelled from the same two names as the tag, whatever the Go identifiers
 // derived from them look like. Each piece is translated into the little term language of Model/ComplexityLabel.lean
-// (`NameExpr`: objName | fieldName | fieldGoName | ucFirst e | lcFirst e; `Part`: lit | sub; `Guard`); Props/C14Label.lean
+// (`NameExpr`: objName | fieldName | fieldGoName | ucFirst e | lcFirst e; `Part`: lit | sub; `Guard`: objReserved |
+// fieldReserved | objAttr "Root"/"Stream" | not | and | or); Props/C14Label.lean
 // proves `Faithful` for BOTH flavours over what is regenerated here.
 //
 // Refused (broken tie): another nesting of the ranges / guards, a template function other than ucFirst / lcFirst, an
-// attribute other than Name / GoFieldName / IsReserved, a tag that is not a `+` chain of the two parameters and
+// attribute other than Name / GoFieldName / IsReserved (guards: also $object.Root / $object.Stream), a tag that is not a `+` chain of the two parameters and
 // string literals, `case` not on the first member or the body not after the last.
 func init() { extractors["ComplexityLabels"] = extractComplexityLabels }
 
@@ -141,6 +142,9 @@ func (t *clTr) nameExpr(p *parse.PipeNode, obj, field string) (string, error) {
 	return cur, nil
 }
 
+// boolean attributes of codegen.Object a guard may read besides IsReserved (what the harness knows of its projects)
+var clObjAttrs = map[string]bool{"Root": true, "Stream": true}
+
 func (t *clTr) guardArg(n parse.Node, obj, field string) (string, error) {
 	switch x := n.(type) {
 	case *parse.VariableNode:
@@ -152,7 +156,13 @@ func (t *clTr) guardArg(n parse.Node, obj, field string) (string, error) {
 				return ".fieldReserved", nil
 			}
 		}
-		return "", t.errf(x.Pos, "guard reads `%s`: only %s.IsReserved / %s.IsReserved are modelled", x.String(), obj, field)
+		// the KIND of the object: `$object.Root` (a root of the schema), `$object.Stream` (the subscription root) - a
+		// guard that reads it is translated (Guard.objAttr), so that the switch it describes can be run by the model and
+		// `Faithful` (stated for every valuation of these attributes) stops closing
+		if len(x.Ident) == 2 && x.Ident[0] == obj && clObjAttrs[x.Ident[1]] {
+			return fmt.Sprintf("(.objAttr %q)", x.Ident[1]), nil
+		}
+		return "", t.errf(x.Pos, "guard reads `%s`: only %s.IsReserved / %s.Root / %s.Stream / %s.IsReserved are modelled", x.String(), obj, obj, obj, field)
 	case *parse.PipeNode:
 		return t.guard(x, obj, field)
 	}
